@@ -190,3 +190,12 @@ add('C03', 'benign', 'brax/spring/collisions.py', '    impulse_d = math.safe_nor
     impulse_d = math.safe_norm(vel_d) / w_d''', 'listed denominator rewritten (commuted, temp introduced)')
 add('C03', 'break', 'brax/spring/collisions.py', '    impulse_d = math.safe_norm(vel_d) / (i_mass[0] + i_mass[1] + ang_d)', '''    impulse_d = math.safe_norm(vel_d) / (i_mass[0] + i_mass[1] + ang_d)
     impulse_d = impulse_d / math.safe_norm(c.frame[1])''', 'a further unguarded state-dependent division in a function with listed exceptions')
+add('C17', 'break', R, '''    self.check_can_insert(buffer_state, samples, 1)
+    return self.insert_internal(buffer_state, samples)''', '''    return self.insert_internal(buffer_state, samples)''', 'host-side insert bookkeeping dropped')
+add('C17', 'benign', R, '''    self.check_can_insert(buffer_state, samples, 1)
+    return self.insert_internal(buffer_state, samples)''', '''    new_state = self.insert_internal(buffer_state, samples)
+    self.check_can_insert(buffer_state, samples, 1)
+    return new_state''', 'guard after the (pure) internal insert: same refusals, same state')
+add('C17', 'benign', R, '''    self._buffer.check_can_sample(buffer_state, self._num_devices)
+    buffer_state, samples = jax.pmap''', '''    self._buffer.check_can_sample(buffer_state, 1)
+    buffer_state, samples = jax.pmap''', 'shard count only feeds the error message of check_can_sample')
